@@ -417,6 +417,22 @@ func (c *Chain) Call(fn func(ctx sdk.Context) error) (err error, panicked any) {
 	return nil, nil
 }
 
+// CallKeep runs fn on a branch of the committed state and writes the branch whether fn fails or not (a panic writes
+// nothing): what a block hook does that calls a keeper without a cache context and only logs the error.
+func (c *Chain) CallKeep(fn func(ctx sdk.Context) error) (err error, panicked any) {
+	defer func() {
+		if r := recover(); r != nil {
+			panicked = r
+			err = fmt.Errorf("panic: %v", r)
+		}
+	}()
+	ctx, write := c.Ctx().CacheContext()
+	ctx = ctx.WithGasMeter(newGas(50_000_000))
+	e := fn(ctx)
+	write()
+	return e, nil
+}
+
 func (c *Chain) Bal(addr sdk.AccAddress, denom string) sdkmath.Int {
 	return c.App.BankKeeper.GetBalance(c.Ctx(), addr, denom).Amount
 }
